@@ -400,7 +400,8 @@ class PayloadVENDOR(Payload):
 
     def to_dict(self):
         result = super().to_dict()
-        result['vendor_id'] = self.vendor_id.decode()
+        # vendor IDs are arbitrary octets (most implementations send a hash): never fail while rendering them
+        result['vendor_id'] = self.vendor_id.decode(errors='backslashreplace')
         return result
 
 
@@ -566,12 +567,15 @@ class PayloadID(Payload):
         return data
 
     def _id_data_str(self):
-        if self.id_type in (PayloadID.Type.ID_RFC822_ADDR, PayloadID.Type.ID_FQDN):
-            return self.id_data.decode()
-        elif self.id_type in (PayloadID.Type.ID_IPV4_ADDR, PayloadID.Type.ID_IPV6_ADDR):
-            return str(ip_address(self.id_data)),
-        else:
-            return self.id_data.hex()
+        # the identification data comes from the peer: if it is not what its type promises, show it as hex
+        try:
+            if self.id_type in (PayloadID.Type.ID_RFC822_ADDR, PayloadID.Type.ID_FQDN):
+                return self.id_data.decode()
+            elif self.id_type in (PayloadID.Type.ID_IPV4_ADDR, PayloadID.Type.ID_IPV6_ADDR):
+                return str(ip_address(bytes(self.id_data))),
+        except ValueError:
+            pass
+        return self.id_data.hex()
 
     def to_dict(self):
         result = super().to_dict()
